@@ -41,6 +41,9 @@ Proof. apply impl_bytes. bytes_check. Qed.
 Lemma usedep_char_not_ws : forall c, is_usedep_char c = true -> not_ws c = true.
 Proof. apply impl_bytes. bytes_check. Qed.
 
+Lemma is_eq n c : is n c = true -> c = nb n.
+Proof. unfold is. intros H. apply N.eqb_eq in H. rewrite <- H. symmetry. apply nb_bn. Qed.
+
 (* ---- peek / span ---- *)
 Lemma span_app p s : forall a b, span p s = (a, b) -> s = a ++ b.
 Proof.
